@@ -1,0 +1,151 @@
+//go:build verif
+
+// Contracts for the deductive verification harness in /verif (govc).
+// Comments only; compiled only with -tags verif and then contributes nothing.
+
+package db
+
+// ---------------------------------------------------------------- byte helpers of the prefix view (C18)
+
+//@ func cp(bz) (ret)
+//@   props C18
+//@   ensures [copy] ret != nil && fresh(ret) && len(ret) == len(bz) && forall(i, imp(0 <= i && i < len(bz), at(ret, i) == at(bz, i)))
+
+// cpIncr: the big-endian successor of bz at the same length — the exclusive
+// upper bound of the key range sharing prefix bz; nil exactly when there is no
+// such bound (every byte is 0xFF).
+//@ func cpIncr(bz) (ret)
+//@   props C18
+//@   requires len(bz) > 0
+//@   ensures [overflow] (ret == nil) == all(bz, b, b == 255)
+//@   ensures [shape] ret != nil ==> fresh(ret) && len(ret) == len(bz)
+//@   ensures [succ] ret != nil ==> exists(p, 0 <= p && p < len(bz) && at(ret, p) == at(bz, p) + 1 && forall(j, imp(p < j && j < len(bz), at(bz, j) == 255 && at(ret, j) == 0)) && forall(j, imp(0 <= j && j < p, at(ret, j) == at(bz, j))))
+//@   loop 1 invariant 0 - 1 <= i && i < len(bz) && ret != nil && len(ret) == len(bz) && fresh(ret)
+//@   loop 1 invariant forall(j, imp(i < j && j < len(bz), at(bz, j) == 255 && at(ret, j) == 0))
+//@   loop 1 invariant forall(j, imp(0 <= j && j <= i, at(ret, j) == at(bz, j)))
+//@   loop 1 decreases i + 1
+
+// prefixed: prefix followed by key, in a fresh slice (the caller's key and the
+// view's prefix are not written)
+//@ func (*PrefixDB).prefixed(pdb, key) (pk)
+//@   props C18
+//@   requires pdb != nil
+//@   ensures [layout] pk != nil && len(pk) == len(pdb.prefix) + len(key)
+//@   ensures [prefix] forall(i, imp(0 <= i && i < len(pdb.prefix), at(pk, i) == at(pdb.prefix, i)))
+//@   ensures [key] forall(i, imp(0 <= i && i < len(key), at(pk, len(pdb.prefix) + i) == at(key, i)))
+
+// ---------------------------------------------------------------- PrefixDB point operations: empty keys are refused, the parent only ever sees prefix+key
+
+//@ func (*PrefixDB).Set(pdb, key, value) (err)
+//@   props C18
+//@   requires pdb != nil && pdb.db != nil
+//@   macro prefixedArg = len(arg0) == len(pdb.prefix) + len(key) && forall(i, imp(0 <= i && i < len(pdb.prefix), at(arg0, i) == at(pdb.prefix, i))) && forall(i, imp(0 <= i && i < len(key), at(arg0, len(pdb.prefix) + i) == at(key, i)))
+//@   ensures [emptykey] len(key) == 0 ==> err != nil
+//@   callsite KVStoreWithBatch).Set [namespaced] len(key) > 0 && prefixedArg && arg1 == value
+//@   modifies *
+
+//@ func (*PrefixDB).Delete(pdb, key) (err)
+//@   props C18
+//@   requires pdb != nil && pdb.db != nil
+//@   macro prefixedArg = len(arg0) == len(pdb.prefix) + len(key) && forall(i, imp(0 <= i && i < len(pdb.prefix), at(arg0, i) == at(pdb.prefix, i))) && forall(i, imp(0 <= i && i < len(key), at(arg0, len(pdb.prefix) + i) == at(key, i)))
+//@   ensures [emptykey] len(key) == 0 ==> err != nil
+//@   callsite KVStoreWithBatch).Delete [namespaced] len(key) > 0 && prefixedArg
+//@   modifies *
+
+//@ func (*PrefixDB).Get(pdb, key) (value, err)
+//@   props C18
+//@   requires pdb != nil && pdb.db != nil
+//@   macro prefixedArg = len(arg0) == len(pdb.prefix) + len(key) && forall(i, imp(0 <= i && i < len(pdb.prefix), at(arg0, i) == at(pdb.prefix, i))) && forall(i, imp(0 <= i && i < len(key), at(arg0, len(pdb.prefix) + i) == at(key, i)))
+//@   ensures [emptykey] len(key) == 0 ==> err != nil
+//@   callsite KVStoreWithBatch).Get [namespaced] len(key) > 0 && prefixedArg
+//@   modifies *
+
+//@ func (*PrefixDB).Has(pdb, key) (ok, err)
+//@   props C18
+//@   requires pdb != nil && pdb.db != nil
+//@   macro prefixedArg = len(arg0) == len(pdb.prefix) + len(key) && forall(i, imp(0 <= i && i < len(pdb.prefix), at(arg0, i) == at(pdb.prefix, i))) && forall(i, imp(0 <= i && i < len(key), at(arg0, len(pdb.prefix) + i) == at(key, i)))
+//@   ensures [emptykey] len(key) == 0 ==> err != nil
+//@   callsite KVStoreWithBatch).Has [namespaced] len(key) > 0 && prefixedArg
+//@   modifies *
+
+// batch of a prefix view: same namespacing, and neither an empty key nor a nil value is passed on
+//@ func (prefixDBBatch).Set(pb, key, value) (err)
+//@   props C18
+//@   requires pb.source != nil
+//@   macro prefixedArg = len(arg0) == len(pb.prefix) + len(key) && forall(i, imp(0 <= i && i < len(pb.prefix), at(arg0, i) == at(pb.prefix, i))) && forall(i, imp(0 <= i && i < len(key), at(arg0, len(pb.prefix) + i) == at(key, i)))
+//@   ensures [emptykey] len(key) == 0 ==> err != nil
+//@   ensures [nilvalue] value == nil ==> err != nil
+//@   callsite Batch).Set [namespaced] len(key) > 0 && value != nil && prefixedArg && arg1 == value
+//@   modifies *
+
+//@ func (prefixDBBatch).Delete(pb, key) (err)
+//@   props C18
+//@   requires pb.source != nil
+//@   macro prefixedArg = len(arg0) == len(pb.prefix) + len(key) && forall(i, imp(0 <= i && i < len(pb.prefix), at(arg0, i) == at(pb.prefix, i))) && forall(i, imp(0 <= i && i < len(key), at(arg0, len(pb.prefix) + i) == at(key, i)))
+//@   ensures [emptykey] len(key) == 0 ==> err != nil
+//@   callsite Batch).Delete [namespaced] len(key) > 0 && prefixedArg
+//@   modifies *
+
+// ---------------------------------------------------------------- range bounds of a prefix view
+//
+// start bound: prefix+start; end bound: prefix+end, or for an open end the
+// successor of the prefix (nil exactly when the prefix is all 0xFF, i.e. the
+// namespace extends to the end of the key space)
+//@ func (*PrefixDB).Iterator(pdb, start, end) (it, err)
+//@   props C18
+//@   requires pdb != nil && pdb.db != nil && len(pdb.prefix) > 0
+//@   ensures [emptybound] (start != nil && len(start) == 0) || (end != nil && len(end) == 0) ==> err != nil
+//@   callsite KVStoreWithBatch).Iterator [lower] len(arg0) == len(pdb.prefix) + len(start) && forall(i, imp(0 <= i && i < len(pdb.prefix), at(arg0, i) == at(pdb.prefix, i))) && forall(i, imp(0 <= i && i < len(start), at(arg0, len(pdb.prefix) + i) == at(start, i)))
+//@   callsite KVStoreWithBatch).Iterator [upper-given] end != nil ==> len(arg1) == len(pdb.prefix) + len(end) && forall(i, imp(0 <= i && i < len(pdb.prefix), at(arg1, i) == at(pdb.prefix, i))) && forall(i, imp(0 <= i && i < len(end), at(arg1, len(pdb.prefix) + i) == at(end, i)))
+//@   callsite KVStoreWithBatch).Iterator [upper-open] end == nil ==> (arg1 == nil) == all(pdb.prefix, b, b == 255) && (arg1 != nil ==> len(arg1) == len(pdb.prefix))
+//@   modifies *
+
+//@ func (*PrefixDB).ReverseIterator(pdb, start, end) (it, err)
+//@   props C18
+//@   requires pdb != nil && pdb.db != nil && len(pdb.prefix) > 0
+//@   ensures [emptybound] (start != nil && len(start) == 0) || (end != nil && len(end) == 0) ==> err != nil
+//@   callsite KVStoreWithBatch).ReverseIterator [lower] len(arg0) == len(pdb.prefix) + len(start) && forall(i, imp(0 <= i && i < len(pdb.prefix), at(arg0, i) == at(pdb.prefix, i))) && forall(i, imp(0 <= i && i < len(start), at(arg0, len(pdb.prefix) + i) == at(start, i)))
+//@   callsite KVStoreWithBatch).ReverseIterator [upper-given] end != nil ==> len(arg1) == len(pdb.prefix) + len(end) && forall(i, imp(0 <= i && i < len(pdb.prefix), at(arg1, i) == at(pdb.prefix, i))) && forall(i, imp(0 <= i && i < len(end), at(arg1, len(pdb.prefix) + i) == at(end, i)))
+//@   callsite KVStoreWithBatch).ReverseIterator [upper-open] end == nil ==> (arg1 == nil) == all(pdb.prefix, b, b == 255) && (arg1 != nil ==> len(arg1) == len(pdb.prefix))
+//@   modifies *
+
+// ---------------------------------------------------------------- MemDB: validation, and the batch life cycle
+
+//@ func (*MemDB).Set(db, key, value) (err)
+//@   props C18
+//@   requires db != nil && db.btree != nil
+//@   ensures [emptykey] len(key) == 0 ==> err != nil
+//@   ensures [nilvalue] value == nil ==> err != nil
+//@   callsite MemDB).set [stored] len(arg1) > 0 && arg2 != nil && arg1 == key && arg2 == value
+//@   modifies *
+
+//@ func (*memDBBatch).Set(b, key, value) (err)
+//@   props C18
+//@   requires b != nil
+//@   ensures [reject] len(key) == 0 || value == nil || old(b.ops) == nil ==> err != nil && b.ops == old(b.ops)
+//@   ensures [append] err == nil ==> len(b.ops) == old(len(b.ops)) + 1 && b.ops[old(len(b.ops))].opType == opTypeSet && b.ops[old(len(b.ops))].key == key && b.ops[old(len(b.ops))].value == value
+//@   ensures [keep] err == nil ==> forall(i, imp(0 <= i && i < old(len(b.ops)), b.ops[i] == old(b.ops[i])))
+//@   modifies b.ops, b.size, b.ops[*]
+
+//@ func (*memDBBatch).Delete(b, key) (err)
+//@   props C18
+//@   requires b != nil
+//@   ensures [reject] len(key) == 0 || old(b.ops) == nil ==> err != nil && b.ops == old(b.ops)
+//@   ensures [append] err == nil ==> len(b.ops) == old(len(b.ops)) + 1 && b.ops[old(len(b.ops))].opType == opTypeDelete && b.ops[old(len(b.ops))].key == key
+//@   ensures [keep] err == nil ==> forall(i, imp(0 <= i && i < old(len(b.ops)), b.ops[i] == old(b.ops[i])))
+//@   modifies b.ops, b.size, b.ops[*]
+
+//@ func (*memDBBatch).Close(b) (err)
+//@   props C18
+//@   requires b != nil
+//@   ensures [spent] err == nil && b.ops == nil && b.size == 0
+//@   modifies b.ops, b.size
+
+// Write: a closed batch is refused; a written batch is closed (it cannot be written or extended again)
+//@ func (*memDBBatch).Write(b) (err)
+//@   props C18
+//@   nosafety
+//@   requires b != nil && b.db != nil
+//@   ensures [closed] old(b.ops) == nil ==> err != nil
+//@   ensures [spent] err == nil ==> b.ops == nil
+//@   modifies *
